@@ -135,6 +135,10 @@ type Out struct {
 	Stats Stats
 	seen  map[[32]byte]bool
 	Lines int
+	// the op lines of the case being executed, flushed line by line: if the real code kills the process (fatal error,
+	// stack overflow, deadlock) ./check reports this file as the replay
+	cur       *os.File
+	seenReset bool
 }
 
 func NewOut(dir string) *Out {
@@ -147,8 +151,25 @@ func NewOut(dir string) *Out {
 	if err != nil {
 		panic(err)
 	}
+	cur, _ := os.Create(filepath.Join(dir, "current_case.ops"))
 	return &Out{Dir: dir, fo: fo, fi: fi, ops: bufio.NewWriterSize(fo, 1<<20), impl: bufio.NewWriterSize(fi, 1<<20),
-		seen: map[[32]byte]bool{}, Stats: Stats{Distribution: map[string]int{}}}
+		seen: map[[32]byte]bool{}, Stats: Stats{Distribution: map[string]int{}}, cur: cur}
+}
+
+// Begin notes that op is about to be executed (call before running it on the real code).
+func (o *Out) Begin(op string) {
+	if o.cur == nil {
+		return
+	}
+	isReset := len(op) >= 5 && op[:5] == "reset"
+	if isReset {
+		o.seenReset = true
+	}
+	if isReset || !o.seenReset {
+		o.cur.Truncate(0)
+		o.cur.Seek(0, 0)
+	}
+	o.cur.WriteString(op + "\n")
 }
 
 // Emit records one op line and what the implementation answered.
@@ -195,6 +216,10 @@ func (o *Out) Violate(v Violation) {
 }
 
 func (o *Out) Close() {
+	if o.cur != nil {
+		o.cur.Close()
+		os.Remove(filepath.Join(o.Dir, "current_case.ops"))
+	}
 	o.ops.Flush()
 	o.impl.Flush()
 	o.fo.Close()
